@@ -283,7 +283,7 @@ class Ctx:
             return list(ex.map(lambda nt: self.coq_eval(nt[0], nt[1], timeout), files))
 
     # -- exact-certificate protocol --------------------------------------------------------------
-    def coq_check_cases(self, tag, header, case_terms, check_fn, shard=400, extra_defs="", max_bytes=60000, alt_fn=None):
+    def coq_check_cases(self, tag, header, case_terms, check_fn, shard=400, extra_defs="", max_bytes=60000, alt_fn=None, info_fn=None):
         """Let Coq decide `check_fn case = true` for every case term.
         Returns the list of indices (into case_terms) for which the check is false, or raises
         CoqRunError if a file did not compile for another reason.
@@ -312,11 +312,14 @@ class Ctx:
                 body.append("Lemma corr : bad2 = []. Proof. reflexivity. Qed.")
             else:
                 body.append("Lemma corr : bad = []. Proof. reflexivity. Qed.")
+            if info_fn:  # informational only (e.g. which cases were undecided): not part of the certificate
+                body.append(f"Eval vm_compute in (failing_idx (map (fun c => negb (({info_fn}) c)) cases)).")
             files.append((f"{tag}_{len(files)}", "\n".join(body) + "\n"))
             spans.append(k)
             k = j
         res = self.coq_eval_many(files)
         badidx, bad2idx = [], []
+        self.last_info = []
         for (rc, out), k0, (nm, _) in zip(res, spans, files):
             self.case_lemmas += 1
             vals = parse_evals(out)
@@ -331,6 +334,8 @@ class Ctx:
                 raise CoqRunError(f"case file {nm} failed:\n{out[-2000:]}")
             badidx.extend(k0 + i for i in lst)
             bad2idx.extend(k0 + i for i in lst2)
+            if info_fn and len(vals) > need:
+                self.last_info.extend(k0 + i for i in parse_nat_list(vals[need]))
         return (badidx, bad2idx) if alt_fn else badidx
 
     # -- verdict --------------------------------------------------------------------------------
